@@ -2,7 +2,7 @@
    closed by `exact`.  The full statement is C12_statement (Proofs/Idna_Hyp.v), relative to AdapterOK and
    the Punycode round trip PunyRT, outside Known_C12; see theorem_notes in tools/props_d/C12.py. *)
 From RU Require Import Base.Prelude Base.Utf8 Base.Utf8Facts Base.U32_c13 Gen.Tables Model.Punycode Model.Uts46
-  Proofs.Idna_Sim Proofs.Idna_Api Proofs.Idna_Known Proofs.Idna_Hyp Proofs.Idna_C12 Proofs.Idna_Tables.
+  Proofs.Idna_Sim Proofs.Idna_Api Proofs.Idna_Known Proofs.Idna_Hyp Proofs.Idna_C12 Proofs.Idna_Tables Proofs.Idna_PunyRT.
 
 (* the four clauses on names of the fastest tier (lower-case letters and dots), every adapter *)
 Theorem C12_fast_partial : forall A cfg d deny hy p, bytes d -> fast_tier d d = None ->
@@ -32,6 +32,30 @@ Check C12_accepted_no_error : forall A cfg d deny hy b a bu t e, Redisc A cfg de
   to_ascii A cfg d deny hy DIgnore = Ok (b, a) ->
   to_unicode A cfg d deny hy = UI bu t e -> e = false.
 Print Assumptions C12_accepted_no_error.
+
+(* the Punycode round trip that uts46.rs relies on (PunyRT, Proofs/Idna_Hyp.v) is a theorem, derived from the C13
+   development: for a label of at most 1000 scalar values the internal encoder's output is read back by the char
+   decoder as the label and by the u8 decoder as the label with its ASCII letters lower-cased *)
+Theorem C12_punyrt : forall cfg l p,
+  len l <= PUNYCODE_ENCODE_MAX_INPUT_LENGTH -> usv_list l -> encode_internal cfg l = Ok p ->
+  decode_with cfg CharInternal p = Ok l /\ decode_with cfg U8Internal p = Ok (map to_lower l).
+Proof. exact punyrt_holds. Qed.
+Check C12_punyrt : forall cfg l p,
+  len l <= PUNYCODE_ENCODE_MAX_INPUT_LENGTH -> usv_list l -> encode_internal cfg l = Ok p ->
+  decode_with cfg CharInternal p = Ok l /\ decode_with cfg U8Internal p = Ok (map to_lower l).
+Print Assumptions C12_punyrt.
+
+Theorem C12_punyrt_rel : forall cfg, PunyRT cfg.
+Proof. exact punyrt_holds. Qed.
+Check C12_punyrt_rel : forall cfg, PunyRT cfg.
+Print Assumptions C12_punyrt_rel.
+
+(* the first wording of that premise (both decoders return the label itself, upper-case letters included) was
+   unsatisfiable: [65; 252] encodes to "A-eha", which the u8 decoder reads as [97; 252] *)
+Theorem C12_punyrt_old_unsat : forall cfg, ~ PunyRT_old cfg.
+Proof. exact PunyRT_old_unsat. Qed.
+Check C12_punyrt_old_unsat : forall cfg, ~ PunyRT_old cfg.
+Print Assumptions C12_punyrt_old_unsat.
 
 (* F-C12-1: inside Known_C12 the round trip fails *)
 Theorem C12_refuted : exists A d deny hy u,
